@@ -118,11 +118,23 @@ impl Val for String {
     }
 }
 
+/// Zero-sized elements: a sequence of n units travels as {"unit_n": "n"} once it is long, so that
+/// `vec![(); 1 << 33]` (offsets beyond u32::MAX at no cost) can be pushed and read back.
+pub const UNIT_RUN_MIN: usize = 4096;
+
 impl<T: Val> Val for Vec<T> {
     fn from_json(v: &Value) -> Self {
+        if let Some(n) = v.get("unit_n").and_then(|n| n.as_str()) {
+            assert_eq!(std::mem::size_of::<T>(), 0, "unit_n only for zero-sized elements");
+            let n: usize = n.parse().expect("unit_n");
+            return vec![T::from_json(&json!("unit")); n];
+        }
         v.as_array().expect("array").iter().map(T::from_json).collect()
     }
     fn to_json(&self) -> Value {
+        if std::mem::size_of::<T>() == 0 && self.len() >= UNIT_RUN_MIN {
+            return json!({"unit_n": self.len().to_string()});
+        }
         Value::Array(self.iter().map(T::to_json).collect())
     }
 }
@@ -211,6 +223,13 @@ impl Render for &str {
 }
 impl<T: Val> Render for &[T] {
     fn render(&self) -> Value {
+        if std::mem::size_of::<T>() == 0 && self.len() >= UNIT_RUN_MIN {
+            let it = self.iter().len();
+            if it != self.len() || self.is_empty() {
+                return inconsistent("slice accessors", json!([self.len(), it]));
+            }
+            return json!({"unit_n": self.len().to_string()});
+        }
         let by_index: Vec<Value> = (0..self.len()).map(|i| self[i].to_json()).collect();
         let by_iter: Vec<Value> = self.iter().map(Val::to_json).collect();
         if by_index != by_iter || self.is_empty() != (self.len() == 0) {
